@@ -214,7 +214,8 @@ theorem C13_dict_flat_group_mid (d : Dicts) (mt : Bytes) (G d0 : Tag) (ts : List
       m.fields = t8 :: t9 :: t35 :: ((preA ++ countTV G es.length :: es.flatMap serEntry) ++ (z0 :: postB ++ [t10])) ∧
       alFind m.body.lookup G = some f ∧
       getGroup (flatTmpl (d0 :: ts)) (f.full m.fields) = .ok (readSpec (z0 :: postB ++ [t10]) es) ∧
-      (readSpec (z0 :: postB ++ [t10]) es).length = es.length := by
+      (readSpec (z0 :: postB ++ [t10]) es).length = es.length ∧
+      ((∀ tv ∈ postB, tv.tag ≠ z0.tag) → (m.body.getBytes m.fields z0.tag = .ok z0.value)) := by
   have hM : ∀ tv ∈ es.flatMap serEntry, IsWire tv ∧ isGroupMember tv.tag C = true := by
     intro tv htv
     obtain ⟨e, he, hm⟩ := List.mem_flatMap.1 htv
@@ -229,13 +230,23 @@ theorem C13_dict_flat_group_mid (d : Dicts) (mt : Bytes) (G d0 : Tag) (ts : List
   have hg0 : IsWire (countTV G es.length) := canonTV_isWire _ (canon_init G _ (fun c hc => by
       have := List.all_eq_true.1 (fmtNat_all_digits es.length) c hc
       have := (isDigit_iff c).1 this; unfold SOH; omega) hGi)
-  obtain ⟨m, hparse, hfields, hfind⟩ := parse_dict_group_mid hg t8 t9 t35 (countTV G es.length) z0 t10 preA (es.flatMap serEntry) postB
+  obtain ⟨m, hparse, hfields, hfind, hz0find⟩ := parse_dict_group_mid hg t8 t9 t35 (countTV G es.length) z0 t10 preA (es.flatMap serEntry) postB
     hw8 hw9 hw35 hw10 h8 h9 h35 h10 hv hpre hg0 rfl hGh hGt hM hz (by
       cases hc : isGroupMember z0.tag C with
       | false => rfl
       | true => exact absurd ((isGroupMember_iff _ _).1 hc) (by rw [hC]; exact hzm))
     hzh hzt hzG hng10 hh10 hbl
-  refine ⟨m, _, hparse, hfields, hfind, ?_, readSpec_length _ _⟩
+  refine ⟨m, _, hparse, hfields, hfind, ?_, readSpec_length _ _, ?_⟩
+  rotate_left
+  · intro hpz
+    apply getBytes_view _ _ _ _ z0 (hz0find hpz)
+    rw [hfields]
+    have hL' : t8 :: t9 :: t35 :: ((preA ++ countTV G es.length :: es.flatMap serEntry) ++ (z0 :: postB ++ [t10])) =
+        (t8 :: t9 :: t35 :: (preA ++ countTV G es.length :: es.flatMap serEntry)) ++ z0 :: (postB ++ [t10]) := by simp
+    rw [hL', List.getElem?_append_right (by simp; omega)]
+    have : 3 + preA.length + 1 + (es.flatMap serEntry).length - (t8 :: t9 :: t35 :: (preA ++ countTV G es.length :: es.flatMap serEntry)).length = 0 := by
+      simp; omega
+    rw [this]; rfl
   rw [hfields]
   have hL : t8 :: t9 :: t35 :: ((preA ++ countTV G es.length :: es.flatMap serEntry) ++ (z0 :: postB ++ [t10])) =
       (t8 :: t9 :: t35 :: preA) ++ countTV G es.length :: (es.flatMap serEntry ++ (z0 :: postB ++ [t10])) := by simp
